@@ -1,5 +1,6 @@
 import HbsModel.Registry
 import HbsModel.Lemmas.NumOrder
+import HbsModel.Lemmas.NumLiteral
 /-
   C15  Comparison and boolean helpers agree with exact arithmetic and order laws.
   (`num-order`'s NumOrd is an external crate: its mixed comparisons are represented by exact
@@ -172,6 +173,22 @@ theorem num_cmp_is_order_of_exact_values (a b : Num) (K : Int) (ha : K ≤ a.exa
 /-- integers are their own exact value -/
 theorem scaled_int : (∀ n, scaled 0 (.pos n) = n) ∧ (∀ n, scaled 0 (.neg n) = -(n : Int)) := by
   constructor <;> intro n <;> simp [scaled, Num.exact, Dy.scaled, Dy.mag]
+
+/-- **numbers written in the template as integer literals compare as the integers they spell**, over the whole u64 range:
+    the literal's text goes through `serde_json::from_str` (`json_parse_integer_literal`: the value is exactly the integer
+    spelled – no detour through i64 or a float), and two such numbers are ordered like those integers -/
+theorem integer_literals_compare_as_spelled (da db : List Nat) (ha : IntSpelling da) (hb : IntSpelling db)
+    (hva : digitsVal da < 2 ^ 64) (hvb : digitsVal db < 2 ^ 64) :
+    Json.parse (da.map digitChar) = some (.num (.pos (digitsVal da))) ∧
+    Json.parse (db.map digitChar) = some (.num (.pos (digitsVal db))) ∧
+    Num.cmp (.pos (digitsVal da)) (.pos (digitsVal db)) = compare (digitsVal da : Int) (digitsVal db : Int) := by
+  refine ⟨json_parse_integer_literal da ha hva, json_parse_integer_literal db hb hvb, ?_⟩
+  have h := num_cmp_is_order_of_exact_values (.pos (digitsVal da)) (.pos (digitsVal db)) 0 (by simp [Num.exact]) (by simp [Num.exact])
+  rw [h, scaled_int.1, scaled_int.1]
+
+/-- u64::MAX and u64::MAX - 1 written as literals: the larger one is greater (both are above i64::MAX) -/
+example : Num.cmp (.pos (digitsVal [1,8,4,4,6,7,4,4,0,7,3,7,0,9,5,5,1,6,1,5])) (.pos (digitsVal [1,8,4,4,6,7,4,4,0,7,3,7,0,9,5,5,1,6,1,4])) = .gt := by
+  decide
 
 private theorem common_scale (a b c : Num) :
     ∃ K : Int, K ≤ a.exact.e ∧ K ≤ b.exact.e ∧ K ≤ c.exact.e :=
